@@ -21,6 +21,14 @@ Theorem failure_keeps_state : forall dbg be root c op,
   is_ok (snd (step dbg be root c op)) = false -> fst (step dbg be root c op) = c.
 Proof. exact failure_keeps_state_lemma. Qed.
 
+(* inside its section no call panics (no SubRange assert!, no debug_assert!, no overflow, in debug or
+   release) except read_uint(n) with n > 8, which indexes an 8-byte array out of range *)
+Theorem only_read_uint_panics : forall dbg be root c op,
+  Inv root -> wf_alloc root -> Sub root c ->
+  (snd (step dbg be root c op) = Panic -> exists n, op = CReadUint n /\ (8 < n)%nat) /\
+  snd (step dbg be root c op) <> OutOfFuel.
+Proof. exact only_read_uint_panics_lemma. Qed.
+
 (* ---- inv_preserved: ptr+len stays inside the allocation, for the reader and for what it returns ---- *)
 Theorem inv_preserved : forall dbg be root c op,
   Inv c ->
